@@ -36,14 +36,64 @@ class LogCapture(logging.Handler):
         self.records.append(record.getMessage())
 
 
-def abstract(mesh, scale):
-    """[kind, cls, p, t, sub, bnd] with exact integer coordinates p*scale (None if inexact)."""
+class ModelMap:
+    """Piecewise affine change of coordinates for strongly stretched simplex meshes whose exact coordinates would
+    overflow TLC's 32-bit integers: the ORIGINAL mesh (true vertices V) is mapped cell by cell onto a model mesh with the
+    same connectivity and small integer vertices M.  The map is a homeomorphism that is affine on every original cell,
+    so validity, conformity, containment in a parent and volume ratios within a parent are the same for a refinement
+    and its image; which edges are longest (the bisection rule itself) is decided by the library in the true geometry.
+    Barycentric coordinates are computed in exact rational arithmetic; a point in no original cell raises."""
+
+    def __init__(self, V, T, M):
+        from fractions import Fraction
+        self.F = Fraction
+        self.V = [[Fraction(float(x)) for x in col] for col in np.asarray(V).T]
+        self.M = [[Fraction(int(x)) for x in col] for col in np.asarray(M).T]
+        self.T = [[int(v) for v in col] for col in np.asarray(T).T]
+        self.inv = []
+        for c in self.T:
+            v0 = self.V[c[0]]
+            A = [[self.V[c[j + 1]][i] - v0[i] for j in range(len(c) - 1)] for i in range(len(v0))]
+            self.inv.append(self._inverse(A))
+
+    def _inverse(self, A):
+        n = len(A)
+        B = [row[:] + [self.F(int(i == j)) for j in range(n)] for i, row in enumerate(A)]
+        for c in range(n):
+            piv = next(r for r in range(c, n) if B[r][c] != 0)
+            B[c], B[piv] = B[piv], B[c]
+            B[c] = [x / B[c][c] for x in B[c]]
+            for r in range(n):
+                if r != c and B[r][c] != 0:
+                    B[r] = [x - B[r][c] * y for x, y in zip(B[r], B[c])]
+        return [row[n:] for row in B]
+
+    def __call__(self, P):
+        out = []
+        for col in np.asarray(P).T:
+            x = [self.F(float(v)) for v in col]
+            for c, inv in zip(self.T, self.inv):
+                d = [x[i] - self.V[c[0]][i] for i in range(len(x))]
+                lam = [sum(inv[j][i] * d[i] for i in range(len(x))) for j in range(len(x))]
+                if all(l >= 0 for l in lam) and sum(lam) <= 1:
+                    m0 = self.M[c[0]]
+                    out.append([float(m0[i] + sum(lam[j] * (self.M[c[j + 1]][i] - m0[i]) for j in range(len(lam))))
+                                for i in range(len(x))])
+                    break
+            else:
+                raise ValueError('point outside the original mesh')
+        return np.array(out).T
+
+
+def abstract(mesh, scale, coords=None):
+    """[kind, cls, p, t, sub, bnd] with exact integer coordinates p*scale (None if inexact).  `coords` replaces the
+    point array (model coordinates, see ModelMap)."""
     kind = kind_of(mesh)
     nv = NVERT[kind]
     nvert = int(np.max(mesh.t[:nv])) + 1
     if type(mesh).__name__ in ('MeshLine1', 'MeshTri1', 'MeshQuad1', 'MeshTet1', 'MeshHex1', 'MeshWedge1'):
         nvert = mesh.p.shape[1]                    # first order: every point is a vertex (possibly unused)
-    q = np.asarray(mesh.p[:, :nvert], dtype=np.float64) * scale
+    q = np.asarray((mesh.p if coords is None else coords)[:, :nvert], dtype=np.float64) * scale
     r = np.rint(q)
     if not np.array_equal(q, r) or (np.abs(r) > 1024).any():
         return None
@@ -102,6 +152,7 @@ def execute(rec, timeout=30):
     if err:
         return [{'a': 'Refine', 'err': 'Setup:' + err, 'pre': EMPTY, 'post': EMPTY, 'k': 0, 'marked': [],
                  'warned_s': 0, 'warned_b': 0, 'op': 'setup'}]
+    model = ModelMap(m.p, m.t, np.array(rec['model_p'], dtype=np.float64)) if rec.get('model_p') else None
     for op in rec['ops']:
         name, arg = op[0], op[1]
         if name == 'restrict':
@@ -143,7 +194,19 @@ def execute(rec, timeout=30):
               'warned_s': int(any('subdomains' in r for r in cap.records)),
               'warned_b': int(any('boundaries' in r for r in cap.records)),
               'pre': EMPTY, 'post': EMPTY}
-        if not err:
+        if not err and model is not None:
+            try:
+                c1, c2 = model(m.p), model(m2.p)
+                sc = find_scale(c2)
+                pre = abstract(m, sc, c1) if sc else None
+                post = abstract(m2, sc, c2) if sc else None
+            except Exception as exc:
+                pre = post = None
+            if pre is None or post is None:
+                ev['err'] = 'InexactCoordinates'
+            else:
+                ev['pre'], ev['post'] = pre, post
+        elif not err:
             sc = find_scale(m2.p[:, :int(np.max(m2.t[:NVERT[kind_of(m2)]])) + 1]
                             if type(m2).__name__.endswith('2') else m2.p)
             pre = abstract(m, sc) if sc else None
